@@ -443,7 +443,7 @@ def cases_for(tier, rng):
         cases.append({"driver": "second_partial_derivative", "fn": fam, "x": point(2)})
     for fam in TRI:
         cases.append({"driver": "third_partial_derivative", "fn": fam, "x": point(3)})
-    lengths = range(1, 13)
+    lengths = list(range(1, 13)) + [16, 33, 64]
     for n in lengths:
         for fam in SCALAR_OF_LIST:
             if tier == "quick" and fam == "nested" and n not in (1, 3, 10, 11):
@@ -453,6 +453,10 @@ def cases_for(tier, rng):
                     if container == "tuple" and (tier == "quick" and n not in (2, 10, 11)):
                         continue
                     cases.append({"driver": d, "fn": fam, "x": point(n), "container": container})
+        if n > 12:
+            # beyond the named lengths: gradient and hessian only (one function, list container)
+            cases[:] = [c for c in cases if not (len(c["x"]) == n and (c["fn"] != "poly" or c.get("container") == "tuple" or (c["driver"] == "hessian" and n > 33)))]
+            continue
         for fam in VECTOR_OF_LIST:
             cases.append({"driver": "jacobian", "fn": fam, "x": point(n), "container": "list"})
         if n >= 3:
